@@ -98,6 +98,16 @@ def gen_ip_lines(rng, fcfg, nlines, near=True):
     pres = [ipaddress.ip_network(a) for a in (fcfg.get("pa") or [])]
     pool4 = [rng.getrandbits(32) for _ in range(6)]
     pool6 = [rng.getrandbits(128) for _ in range(3)] + [(0x20010DB8 << 96) | rng.getrandbits(32), 1, 0]
+    # trap originals: addresses whose IMAGE is special (mask-shaped IPv4 values; IPv6 link-local, multicast,
+    # IPv4-mapped ...) - found with the inverse on fresh anonymizers
+    try:
+        t4 = ipgen.build({"fam": 4, "salt": fcfg["salt"], "B": fcfg.get("B4"), "pp": fcfg.get("pp"), "pa": fcfg.get("pa")})
+        t6 = ipgen.build({"fam": 6, "salt": fcfg["salt"], "B": fcfg.get("B6")})
+        pool4 += [t4.deanonymize(rng.choice(ipgen.MASKS[2:-2])) for _ in range(2)]
+        for base, plen in ((0xFE80 << 112, 10), (0xFF02 << 112, 16), (0xFFFF << 32, 96), (0, 96), (0xFC << 120, 7)):
+            pool6.append(t6.deanonymize(base | rng.getrandbits(128 - plen)))
+    except Exception:
+        pass
     for _ in range(nlines):
         toks = []
         for _ in range(rng.randint(1, 6)):
@@ -166,7 +176,17 @@ def _file(ctx, case):
     back = ipref.run_io(fu, anon)
     ref = ipref.Ref(fcfg)
     got = back.split(eol)
+    fwd = anon.split(eol)
     for i, segs in enumerate(lns):
+        # what was WRITTEN by the forward run must be the reference image (the exemption for mask-shaped
+        # images is decided on the written text, not on a model of it)
+        expf = ipref.expected_forward(segs, ref)
+        ctx.count("file_lines_forward_checked")
+        if (fwd[i] if i < len(fwd) else None) != expf:
+            ctx.violation(dict(case, lines=[segs]), "file-forward-mismatch",
+                          "anonymized line differs from the fresh-instance reference: input=%r output=%r expected=%r"
+                          % (lines.text_of(segs), fwd[i] if i < len(fwd) else None, expf))
+            return
         exp = expected_undone(segs, ref, ctx)
         ctx.ev()
         ctx.count("file_lines_undone")
